@@ -606,7 +606,7 @@ def run(t, budget=1.0):
                        "diagnose (duplicate enum values, ids beyond the header type) are neither generated nor edited in"]
     common.build_sbeppc("plain")
     work = common.build_dir("c08-work-%d" % os.getpid())
-    n_examples = int((8000 if t == "quick" else 120000) * budget)
+    n_examples = int((12000 if t == "quick" else 120000) * budget)
     nworkers = common.NCPU
     matrix = {}
     bugs = 0
